@@ -363,7 +363,7 @@ impl Check for C17 {
         u
     }
     fn required_classes(&self, _tier: Tier) -> Vec<&'static str> {
-        vec!["entry:translate_yaml", "entry:translate_detected", "entry:chunker_early_drop", "entry:reencoder", "entry:detection_only", "reader:plain", "reader:fails_at_offset", "reader:over_reports", "clean_panic_on_contract_violation", "sanitizer:address"]
+        vec!["entry:translate_yaml", "entry:translate_detected", "entry:chunker_early_drop", "entry:reencoder", "entry:detection_only", "reader:plain", "reader:fails_at_offset", "reader:over_reports", "clean_panic_on_contract_violation", "sanitizer:address", "ill_formed_code_units"]
     }
     fn run_unit(&self, unit: &Unit, shard: u32, seed: u64, _tier: Tier, rec: &mut Recorder) {
         if sanitizer_active() && shard == 0 {
@@ -372,6 +372,48 @@ impl Check for C17 {
         match unit.name {
             "gen" => run_prop(rec, seed, unit.cases, case_strategy(), |c| c.to_json(), check_case),
             "fixed" => {
+                // every ill-formed code-unit class of C07, through the re-encoder and
+                // through a whole translation (an unchecked conversion of such a unit
+                // is undefined behaviour; with the standard library's precondition
+                // checks on, as in this build, it aborts)
+                let mut ill: Vec<Case> = vec![];
+                for enc in ["utf-16le", "utf-16be", "utf-32le", "utf-32be"] {
+                    let texts: Vec<Vec<u8>> = if enc.starts_with("utf-16") {
+                        crate::checks::c07::ill_formed16().into_iter().map(|(_, bad)| {
+                            let mut units: Vec<u16> = vec![0xfeff];
+                            units.extend("a: ".encode_utf16());
+                            units.extend(&bad);
+                            units.extend("\nb: 1\n".encode_utf16());
+                            crate::checks::c07::encode_units16(&units, enc)
+                        }).collect()
+                    } else {
+                        crate::checks::c07::ill_formed32().into_iter().map(|(_, bad)| {
+                            let mut units: Vec<u32> = vec![0xfeff];
+                            units.extend("a: ".chars().map(|c| c as u32));
+                            units.extend(&bad);
+                            units.extend("\nb: 1\n".chars().map(|c| c as u32));
+                            crate::checks::c07::encode_units32(&units, enc)
+                        }).collect()
+                    };
+                    for (ti, bytes) in texts.into_iter().enumerate() {
+                        for entry in [0u8, 1, 3] {
+                            ill.push(Case { bytes: bytes.clone(), sched: if ti % 2 == 0 { Sched::Full } else { Sched::Fixed(3) }, plan: Plan::Plain, entry, to: Fmt::Json, limit: 0, read_size: [1usize, 3, 64][ti % 3] });
+                        }
+                    }
+                }
+                for (i, c) in ill.iter().enumerate() {
+                    if i as u32 % unit.shards != shard {
+                        continue;
+                    }
+                    if rec.tracing() {
+                        rec.trace_case(|| c.to_json());
+                    }
+                    rec.class("ill_formed_code_units");
+                    if let Err(m) = check_case(c, rec) {
+                        rec.fail(m, c.to_json());
+                        return;
+                    }
+                }
                 for (i, c) in miri_cases().iter().enumerate() {
                     if i as u32 % unit.shards != shard {
                         continue;
